@@ -31,3 +31,43 @@ def resampleGrid (c : Rat) (d : Nat) (f : Rat) : List Rat :=
 def interpolateTable (t : List Rat) (grid : List Rat) : List (Option Rat) := grid.map (interp1 t)
 
 end Ndcube
+
+namespace Ndcube
+
+/-- inverse of a strictly increasing table (gwcs `Tabular1D.inverse`: the table as points, the
+pixels as values): the position between the two entries that bracket `y`. -/
+def inv1 : List Rat → Rat → Option Rat
+  | [], _ => none
+  | [a], y => if y = a then some 0 else none
+  | a :: b :: rest, y =>
+    if y < a then none
+    else if y ≤ b ∧ a < b then some ((y - a) / (b - a))
+    else (inv1 (b :: rest) y).map (· + 1)
+
+/-- pixel-to-world of tables joined with `&` (or a meshed multi-component coordinate): table
+`k` is read at pixel input `k`, outputs in order. -/
+def joinedP2W (tables : List (List Rat)) (pix : List Rat) : List (Option Rat) :=
+  List.zipWith interp1 tables pix
+
+/-- `coord[item]` for one table: Python slicing of the table -/
+def sliceTable (t : List Rat) (s e : Option Int) : List Rat := pySlice t s e
+
+end Ndcube
+
+namespace Ndcube
+
+/-- inverse of a strictly decreasing table (gwcs reverses points and values) -/
+def inv1Desc (t : List Rat) (y : Rat) : Option Rat :=
+  (inv1 t.reverse y).map fun x => ((t.length : Rat) - 1) - x
+
+def isIncreasing : List Rat → Bool
+  | a :: b :: rest => decide (a < b) && isIncreasing (b :: rest)
+  | _ => true
+
+/-- `world_to_pixel` of a 1-D table: increasing or decreasing tables only -/
+def invTable (t : List Rat) (y : Rat) : Option Rat :=
+  if isIncreasing t then inv1 t y
+  else if isIncreasing t.reverse then inv1Desc t y
+  else none
+
+end Ndcube
